@@ -51,7 +51,8 @@ def run(prop):
 def main():
     patch = sys.argv[1]
     props = sys.argv[2:] or ["C%02d" % i for i in range(1, 21)]
-    prepare(patch)
+    if not os.environ.get("NCHECK_KEEP"):      # NCHECK_KEEP=1: analyse the scratch worktree as it stands (hand-edited)
+        prepare(patch)
     with ProcessPoolExecutor(max_workers=min(16, len(props))) as ex:
         for prop, out in ex.map(run, props):
             if out:
